@@ -23,6 +23,10 @@ def gen_busy_package(rng, d, nfun=40):
         L += ["func id%d(x *T) *T {" % i, "\tif x == nil {", "\t\treturn nil", "\t}", "\treturn x", "}", ""]
     for i in range(rng.randint(2, 4)):
         L += ["// nilable(result 0)", "func ann%d() *T { return nil }" % i, ""]
+    # several functions with one name (init may be declared repeatedly), each calling a contracted function
+    for i in range(rng.randint(2, 3)):
+        L += ["func init() {", "\tvar a *T", "\tp := id%d(a)" % rng.randrange(nctr), "\t_ = p.V", "}", ""]
+    L += ["func _() {", "\tvar a *T", "\t_ = id0(a).V", "}", "", "func _() {", "\tvar a *T", "\t_ = id1(a).V", "}", ""]
     for i in range(nfun):
         k = rng.random()
         L.append("func F%d(p *T, c bool) int {" % i)
